@@ -41,7 +41,7 @@ def obligations(tier):
                       "5 time zones, nested key repeats, language content, nested extensions, values reused across spec versions) x 32 option vectors")]
     for p in range(8):
         obls.append(CH("roundtrip_every_class_p%d" % p, H, "roundtrip_classes", t * 2, mode="E1s", functions=F, stubs=[JSONT], env={"VERIF_PART": str(p)},
-                       bounds="classes with index %% 8 == %d of 59 x 6 value-pool rotations x {parsed, parsed with custom properties, constructed from naive/UTC/offset datetimes with sub-millisecond digits} x 32 option vectors" % p))
+                       bounds="classes with index %% 8 == %d of 59 x 6 value-pool rotations x {parsed, parsed with custom properties, constructed from naive/UTC/offset datetimes with sub-millisecond digits, constructed with defaulted id and times} x 32 option vectors" % p))
     obls += [o for o in C02.obligations(tier) if o.name.startswith("constructor_engine")]
     obls += [o for o in C15.obligations(tier) if o.name in ("parse_format_fixed_point", "format_is_canonical_truncated")]
     return obls
